@@ -337,7 +337,15 @@ pub fn run(sc: &Scenario) -> String {
                 let op = t.tok();
                 writeln!(out, "OP {} {}", idx, op).unwrap();
                 if sys.is_none() {
-                    sys = Some(System::new(seed));
+                    // ASV_LOGFILE: the same script with a system that also logs to a file (System::with_log_file): the
+                    // in-memory trace must be the same apart from the ProcessStateUpdated entries (C17)
+                    sys = Some(match std::env::var("ASV_LOGFILE") {
+                        Ok(dir) => {
+                            let p = std::path::Path::new(&dir).join(format!("simlog-{}.jsonl", std::process::id()));
+                            System::with_log_file(seed, &p)
+                        }
+                        Err(_) => System::new(seed),
+                    });
                 }
                 let s = sys.as_mut().unwrap();
                 crate::script_proc::CALLS.with(|c| c.borrow_mut().clear());
